@@ -1,5 +1,5 @@
 import H264.Bits
-import H264.GeneratedTables
+import H264.GeneratedBits
 namespace BitsProof
 open Bits
 
